@@ -61,7 +61,7 @@ ALLOW = {
 def err1_subset(P, R, L, prefixes, rule="ERR-1"):
     """ERR-1 restricted to the bodies whose path starts with one of `prefixes` (same engine, same allow-table)."""
     n = 0
-    for p, b in sorted(P.bodies.items()):
+    for p, b in sorted(P.bodies_as_written.items()):
         if not any(p.startswith(x) for x in prefixes):
             continue
         sites = [cs for cs in err.result_sites(b)
@@ -96,7 +96,7 @@ def err1(P, R, L):
     cats = {}
     used_allow = set()
     n_bodies = 0
-    for p, b in sorted(P.bodies.items()):
+    for p, b in sorted(P.bodies_as_written.items()):
         sites = [cs for cs in err.result_sites(b)
                  if not (cs.name in (err.TRY_BRANCH, err.FROM_RESIDUAL) or cs.name in err.ALIASING or cs.name in err.CHAINING)]
         if not sites:
